@@ -14,6 +14,10 @@
 (*             (ParamRoutingOps!SpecialKinds: 0.0, integer 0, -0.0, negative, outside [-pi, pi], *)
 (*             integer-typed, far from the data), MLE; same clauses; deviation from a declared    *)
 (*             value of zero is absolute.                                                         *)
+(*  "fitvm"    the life cycle on a ScipyDistribution subclass of scipy's vonmises             *)
+(*             (ParamRoutingOps!VmSubCases: f_scale = 1.3, f_loc = 0.42 / 4.0, f_kappa).            *)
+(*  "fitnone"  the life cycle with f_<sname> = None passed explicitly: nothing is fixed (F = <<>>), *)
+(*             the instance evaluates like the one built from the plain values, the fit succeeds.   *)
 (*  "condfix"  a ConditionalDistribution whose template has the non-empty proper subset F      *)
 (*             fixed and the other parameters dependent: fixed values for several scalar and    *)
 (*             vector conditioning values before (preok) and after (postok) ConditionalDistribution.fit, *)
@@ -46,22 +50,28 @@ CondFixClauses(r) ==
   IF r.exc # "" THEN << <<"UnexpectedException", FALSE>> >>
   ELSE <<
     <<"FixedSameForAllGiven", r.preok /\ r.postok /\ r.ngiven >= 4>>,
-    <<"FixedStableInIntervals", r.fitdev <= FixedTolE15 /\ r.nint >= 3>>
+    <<"FixedStableInIntervals", r.fitdev <= FixedTolE15 /\ r.nint >= 3>>,
+    (* ConditionalDistribution.fit(data, values, boundaries) without `method` ("defaults to the   *)
+    (* distribution's default") gives bit for bit the per-interval parameters of method = "mle"    *)
+    <<"DefaultFitMethod", r.defsame>>
   >>
 
 Idx(kind) == {i \in 1..Len(TraceLog) : TraceLog[i].kind = kind}
 FitSeen == {<<TraceLog[i].fam, TraceLog[i].F, TraceLog[i].fitm, TraceLog[i].data>> : i \in Idx("fit")}
 CondFixSeen == {<<TraceLog[i].fam, TraceLog[i].F>> : i \in Idx("condfix")}
 SpecialSeen == {<<TraceLog[i].fam, TraceLog[i].sname, TraceLog[i].special>> : i \in Idx("fitspecial")}
+VmSeen == {<<TraceLog[i].F, TraceLog[i].special>> : i \in Idx("fitvm")}
+NoneSeen == {<<TraceLog[i].fam, TraceLog[i].sname>> : i \in Idx("fitnone")}
 SummaryClauses(r) ==
   <<
+    <<"ExtraCoverage", VmSeen = VmSubCases /\ NoneSeen = NoneFixCases>>,
     <<"SpecialCoverage", SpecialSeen = SpecialFitCases
                          /\ Cardinality(Idx("fitspecial")) = r.reps * Cardinality(SpecialFitCases)>>,
     <<"FitCoverage", FitSeen = FitCases /\ Cardinality(Idx("fit")) = r.reps * Cardinality(FitCases)>>,
     <<"CondFixCoverage", CondFixSeen = CondFixCases>>
   >>
 
-Clauses(r) == CASE r.kind \in {"fit", "fitspecial"} -> FitClauses(r)
+Clauses(r) == CASE r.kind \in {"fit", "fitspecial", "fitvm", "fitnone"} -> FitClauses(r)
                 [] r.kind = "condfix" -> CondFixClauses(r)
                 [] r.kind = "summary" -> SummaryClauses(r)
 
